@@ -111,6 +111,26 @@ pub fn check_returned_ids(sig: &str, before: &v1::Function, s1: &v1::State, got:
 }
 
 /// split by a mask drawn early on the tape (so that short tapes still split)
+/// f := f + c * x_id, whatever the representation of f
+fn add_term(f: &mut Option<v1::Function>, id: u64, c: f64) {
+    use v1::function::Function as F;
+    let mut g = f.take().unwrap_or_else(|| crate::mk::fconst(0.0));
+    match &mut g.function {
+        Some(F::Linear(l)) => l.terms.push(crate::mk::term(id, c)),
+        Some(F::Quadratic(q)) => match &mut q.linear {
+            Some(l) => l.terms.push(crate::mk::term(id, c)),
+            None => q.linear = Some(crate::mk::linear(vec![(id, c)], 0.0)),
+        },
+        Some(F::Polynomial(p)) => p.terms.push(crate::mk::monomial(vec![id], c)),
+        Some(F::Constant(k)) => {
+            let k = *k;
+            g = crate::mk::flin(crate::mk::linear(vec![(id, c)], k));
+        }
+        _ => g = crate::mk::flin(crate::mk::linear(vec![(id, c)], 0.0)),
+    }
+    *f = Some(g);
+}
+
 fn split_state(mask: u16, s: &v1::State) -> (v1::State, v1::State) {
     let mut a = v1::State::default();
     let mut b = v1::State::default();
@@ -143,7 +163,7 @@ impl Property for C03 {
          oracle = exact partial evaluation of the raw polynomial + reference evaluator at s1 u s2; non-trivial = s1, s2 non-empty and a term mixing a fixed and a free variable; distinct = sha256(object, s1, s2, steps)"
     }
     fn required_labels(&self) -> Vec<String> {
-        ["level=function", "level=constraint", "level=removed-constraint", "level=instance", "removed-constraint", "dependency", "non-normalised", "two-step", "fixed-id-not-occurring", "regime=general", "regime=dyadic", "mixed-term", "big-sorted-function", "big-sorted-function-repeats-an-id"]
+        ["level=function", "level=constraint", "level=removed-constraint", "level=instance", "removed-constraint", "dependency", "non-normalised", "two-step", "fixed-id-not-occurring", "regime=general", "regime=dyadic", "mixed-term", "big-sorted-function", "big-sorted-function-repeats-an-id", "fixed-variable-mentioned-again-and-fixed-again"]
             .iter()
             .map(|s| s.to_string())
             .collect()
@@ -341,10 +361,23 @@ impl Property for C03 {
         ctx.label("level=instance");
         let mut cfg = InstCfg::new(regime);
         cfg.kinds.extend([4, 5]);
-        let gi = gen_instance(t, &cfg, ctx);
+        let reenter = t.p(48);
+        let mut gi = gen_instance(t, &cfg, ctx);
         let include_irrelevant = t.coin();
         let state = gen_inst_state(t, &gi, regime, include_irrelevant);
         let (mut s1, s2) = split_state(mask1, &state);
+        // a variable fixed earlier (value recorded) that has re-entered the functions since (as after substituting an
+        // expression that mentions it) and is now fixed again at the same value
+        if let (true, Some(fx)) = (reenter, gi.fixed.first().copied()) {
+            let v = gi.inst.decision_variables.iter().find(|d| d.id == fx).and_then(|d| d.substituted_value).unwrap();
+            let c = if regime == Regime::Dyadic { 1.5 } else { 0.3 };
+            add_term(&mut gi.inst.objective, fx, c);
+            if let Some(k) = gi.inst.constraints.first_mut() {
+                add_term(&mut k.function, fx, -c);
+            }
+            s1.entries.insert(fx, v);
+            ctx.label("fixed-variable-mentioned-again-and-fixed-again");
+        }
         if t.p(40) {
             // an id that is not a variable of the instance at all
             s1.entries.insert(987654321, 1.0);
